@@ -1721,6 +1721,58 @@ var _ uuid.UUID
 // a new index: the defaults of a configuration without options (ef 20, efConstruction 200, m 16, mMax 16, mMax0 32, simple
 // selection), sixteen shard maps of its own, nothing stored, the given dimension and metric; a partition's index gets the
 // dimension and the metric of its dataset's record
+// ---------------------------------------------------------------------------------------------
+// C14 ("its partitions stop serving"): the allocator loop. Every announced partition is asked about - "is this node in its
+// replica set NOW" (the catalogue record at the time of the announcement, nothing remembered aside) - and exactly the hosted
+// ones are loaded (watch) or unloaded (unwatch): a partition whose group runs here is unloaded when its dataset goes, however
+// the group came to be loaded (at creation, by a replica-set entry, or by a restored snapshot).
+//@ func (*storage.Allocator).isPartitionAssignedToNode
+//@ props C14
+//@ assume
+//@ pure
+//@ modifies nothing
+//@ func (*cluster.Conn).NodeChangesNotifications
+//@ props C14
+//@ assume
+//@ modifies nothing
+//@ func (*storage.Allocator).addNodeToPartitions
+//@ props C14
+//@ assume
+//@ modifies *
+//@ func (*storage.Allocator).removeNodeFromPartitions
+//@ props C14
+//@ assume
+//@ modifies *
+//@ func (*storage.Allocator).run
+//@ props C14
+//@ safety UNCLAIMED
+//@ ghost kind int = 0
+//@ ghost thePart *partition = nil
+//@ ghost hosted int = 0 - 1
+//@ ghost acted int = 0
+//@ at recv field:storage.Allocator.updatesC
+//@ set kind = ite(istype($recv, *watchPartitionUpdate), 1, ite(istype($recv, *unwatchPartitionUpdate), 2, 0))
+//@ set thePart = ite(istype($recv, *watchPartitionUpdate), $recv.(*watchPartitionUpdate).partition, $recv.(*unwatchPartitionUpdate).partition)
+//@ set hosted = 0 - 1
+//@ set acted = 0
+//@ end
+//@ at call Allocator).isPartitionAssignedToNode
+//@ requires [C14 asks-about-the-announced-partition] $arg1 == thePart && kind != 0
+//@ set hosted = ite($ret0, 1, 0)
+//@ end
+//@ at call partition).loadRaft
+//@ requires [C14 loads-the-announced-partition-hosted-here] $arg0 == thePart && kind == 1 && hosted == 1 && acted == 0
+//@ set acted = 1
+//@ end
+//@ at call partition).unloadRaft
+//@ requires [C14 unloads-the-announced-partition-hosted-here] $arg0 == thePart && kind == 2 && hosted == 1 && acted == 0
+//@ set acted = 1
+//@ end
+//@ requires [wf] this.clusterConn != nil
+//@ modifies *
+//@ loop 1
+//@ invariant [C14 every-announced-partition-hosted-here-was-loaded-or-unloaded] kind != 0 ==> hosted != 0 - 1 && (hosted == 1) == (acted == 1)
+
 // (index.newHnswConfig and index.NewHnsw are verified in package index)
 //@ func storage.newIndexFromDatasetProto
 //@ props C14 C12
